@@ -126,6 +126,20 @@ CHECKS = {
             "pair of transitions allowed there, two threads request them under every schedule with <= K delays (lines of state_machine.py); the "
             "outcome must equal one of the two sequential orders.",
             "Internal vs external transition semantics both accepted; handler exceptions other than the engine's own are not in scope.", "DESIGN.md 3/C18"),
+    "C09": ("fault_enumeration", "vrt+explore", "exhaustive enumeration of loss points (every byte offset) on the real protocol + delay-bounded schedule exploration of the real TCP connection classes over a kernel model",
+            "Level 1: for each session state (NOT SELECTED, SELECTED, SELECTED with an open transaction) x inbound stream x every byte offset (x every "
+            "two-segment split thorough) the prefix is delivered to a real HsmsProtocol, then the peer closes or disable() is called; then a new "
+            "connection must select and deliver its first message; any step that does not complete in virtual time is a deadlock/livelock verdict of "
+            "the runtime. Level 2: the real TcpServerConnection/TcpClientConnection run over a virtual kernel; five enable/disable/connect/close "
+            "scripts are explored under every schedule with <= K delays (every line of tcp_*connection.py is a scheduling point): enable()/disable() "
+            "return, no socket is left open, a later enable() works.",
+            "The kernel is a model (mc/vnet.py); hangs are detected up to the step and virtual-time horizons; spin-waits via repeated backward jumps.",
+            "DESIGN.md 3/C09"),
+    "C10": ("fault_enumeration", "vrt+explore", "exhaustive enumeration of environment answers (short write / would-block / broken pipe / not writable) up to F deviations",
+            "The real TcpConnection.send_data (server and client class) and HsmsProtocol's 1 MiB packet split above it write to a virtual socket; "
+            "every assignment of answers with <= F deviations from 'everything accepted' is executed for message sizes 1 byte .. 2 MiB+5 and 1-2 "
+            "sends; the bytes the peer received must parse as the messages in order, complete where success was reported, a prefix where failure was.",
+            "Kernel answers are a model; F = 2 quick / 3 thorough deviations per execution.", "DESIGN.md 3/C10"),
 }
 
 NOT_YET = "check not built yet in this revision of /verif (see DESIGN.md section 6 build order)"
